@@ -529,7 +529,7 @@ func (g *Gen) resolve(x *Exec, cc *ssa.CallCommon) *target {
 			full = "iface " + tname + "." + cc.Method.Name()
 		}
 		tg := &target{display: tname + "." + cc.Method.Name(), external: !inModule(tp), dynamic: true, pkg: tp}
-		tg.con = g.lookupContract(nil, pp, name, full)
+		tg.con = g.lookupContract(callerPkg, pp, name, full) // (a client package may have its own view: `func iface <full> @<pkg>`)
 		sig := cc.Method.Type().(*types.Signature)
 		for i := 0; i < sig.Params().Len(); i++ {
 			tg.params = append(tg.params, sig.Params().At(i).Name())
